@@ -84,6 +84,9 @@ type behaviour struct {
 	panicAt  int // 0 none, 1 before writing, 2 after the status, 3 after a partial body
 	panicVal int
 	failBody bool
+	// emptyFirst: the handler's first output is a zero-length Write (which
+	// commits the implicit 200 on a real connection); only with status == 0
+	emptyFirst bool
 }
 
 type request struct {
@@ -625,6 +628,10 @@ func (w *world) c15Handler(store *httpd.Store) {
 	r.obs.Handlers++
 	b := r.beh
 	r.resp.fail = b.failBody
+	if b.emptyFirst {
+		simrt.Probe("zero_length_first_write")
+		store.W.Write(nil)
+	}
 	if b.panicAt == 1 {
 		simrt.Probe("panic_before_writing")
 		panic(w.panicValue(r))
@@ -704,6 +711,9 @@ func (w *world) mainC15() {
 				b.panicVal = ch("beh.panic_value", 12)
 			}
 			b.failBody = ch("beh.client_gone", 6) == 0
+			if b.status == 0 && ch("beh.empty_first_write", 3) == 0 {
+				b.emptyFirst = true
+			}
 			mine = append(mine, r)
 		}
 		simrt.GoNamed(name, "harness", func() {
@@ -744,7 +754,9 @@ func (w *world) mainC15() {
 		seenTid[r.tid] = r.id
 		// what the client received: replay the handler's script up to its panic
 		written, code, want := false, 0, 0
-		if b.panicAt == 1 {
+		if b.emptyFirst {
+			want = 200 // committed by the zero-length write, whatever happens next
+		} else if b.panicAt == 1 {
 			want = 500
 		} else {
 			if b.status != 0 {
